@@ -90,6 +90,7 @@ def specs(ctx):
 
 def run(ctx):
     drivercheck.design(ctx, restart=True)
+    drivercheck.design(ctx, cfg="MCDriver_rewrite.cfg")
     for c in c10.mem_cfgs(ctx)[:1]:
         recs = c10.memory_states(ctx, c)
         c10.replay_states(ctx, recs, ("C18_",))
